@@ -2265,7 +2265,14 @@ def gen_subq_edges(seed):
             do({"verb": "group_by", "cols": [cname("g")]})
             do({"verb": "summarize", "kw": [["n", fn("count_star")], ["sx", fn("sum", cname("x"))]]})
             probes.append(h)
-        elif r < 0.8:
+        elif r < 0.65:
+            # an ungrouped summarize over the union, then a subquery that needs none of its columns
+            do({"verb": "summarize", "kw": [["sx", fn("sum", cname("x"))]] + ([["n", fn("count_star")]] if rng.random() < 0.5 else [])})
+            probes.append(h)
+            do({"verb": "alias", "keep": False})
+            do({"verb": rng.choice(["summarize", "mutate"]), "kw": [["m", fn("count_star")]]})
+            probes.append(h)
+        elif r < 0.85:
             do({"verb": "select", "cols": [cname(rng.choice(["g", "x", "s"]))]})
             probes.append(h)
     else:
